@@ -12,7 +12,16 @@ import (
 	"golang.org/x/tools/go/ssa/ssautil"
 )
 
-const repoRoot = "/repo"
+// repoRoot: the tree under verification. GOVC_REPO redirects it to a scratch copy (selftests with deliberately broken
+// code); the registered checks never set it.
+var repoRoot = envOr("GOVC_REPO", "/repo")
+
+func envOr(k, d string) string {
+	if v := os.Getenv(k); v != "" {
+		return v
+	}
+	return d
+}
 
 func loadWorld() (*World, error) {
 	cfg := &packages.Config{Mode: packages.LoadAllSyntax, Dir: repoRoot, BuildFlags: []string{"-tags=verif"},
